@@ -779,7 +779,10 @@ func simC03Laws(c *Ctx) {
 			if !e.IsKnown() {
 				c.Fail("C03", "equals-rawequals-disagree", "equals-unknown-on-known", "Equals of two wholly known values of one type is unknown: %s, %s", a.d, b.d)
 			}
-			if e.True() != ua.RawEquals(ub) {
+			// (RawEquals compares sets member by member in iteration order, and the order of capsule
+			// members is not determined by the members - the statement's own carve-out - so agreement
+			// is not demanded of values that hold sets of capsules)
+			if e.True() != ua.RawEquals(ub) && !(a.d.T.HasCapsule() && hasSetDesc(a.d.T)) {
 				c.Fail("C03", "equals-rawequals-disagree", "equals-vs-rawequals:mixed", "on the wholly known %s and %s Equals is %t but RawEquals is %t", a.d, b.d, e.True(), ua.RawEquals(ub))
 			}
 			if ds := descSameSets(a.d, b.d); ds != Ambiguous && (ds == Yes) != e.True() {
@@ -879,4 +882,19 @@ func reRepresent(c *Ctx, v *VDesc) *VDesc {
 		}
 	}
 	return &n
+}
+
+func hasSetDesc(t *TDesc) bool {
+	if t.K == KSet {
+		return true
+	}
+	if t.Elem != nil && hasSetDesc(t.Elem) {
+		return true
+	}
+	for _, e := range t.Elems {
+		if hasSetDesc(e) {
+			return true
+		}
+	}
+	return false
 }
